@@ -46,7 +46,9 @@ MANIFEST = {
 
 FINDING_REL = "C18-composite-related-to-per-member"
 
-REL_TYPES = ["related-to", "uses", "targets"]
+# relationship types, some contained in others as text (a substring / prefix / suffix match instead of equality
+# must show): analysis-of / static-analysis-of, uses / reuses, related-to / unrelated-to
+REL_TYPES = ["related-to", "unrelated-to", "uses", "reuses", "analysis-of", "static-analysis-of", "targets"]
 
 
 # --------------------------------------------------------------------------
@@ -187,6 +189,9 @@ def specs_of_leaf(leaf):
     return [it for a in leaf["adds"] for _, its in base.flatten(a) for it in its if isinstance(it, dict)]
 
 
+RTYPES_OF = {}
+
+
 def gen_population(rng):
     """objects of a small graph: identities / campaigns / custom with several versions, relationships
     between them (self loops, dangling ends, several types and versions), unversioned objects"""
@@ -222,12 +227,15 @@ def gen_population(rng):
         for us in rng.sample(palette, rng.randint(1, min(3, len(palette)))):
             add(cls, oid, us, props)
     ends = [n[1] for n in nodes] + [base.POOL["identity"][5]]
+    # the types used in this population: usually a pair of which one contains the other
+    rtypes = rng.choice([["related-to", "unrelated-to"], ["uses", "reuses"], ["analysis-of", "static-analysis-of"],
+                         ["related-to", "uses", "targets"], REL_TYPES])
     for rid in rng.sample(base.POOL["relationship"][:5], rng.randint(1, 5)):
         cls = cls_of("rel")
         s, t = rng.choice(ends), rng.choice(ends)
         if rng.random() < 0.15:
             t = s
-        rt = rng.choice(REL_TYPES)
+        rt = rng.choice(rtypes)
         for us in rng.sample(palette, rng.randint(1, min(2, len(palette)))):
             # a later version may point elsewhere
             if rng.random() < 0.2:
@@ -239,6 +247,7 @@ def gen_population(rng):
         add("sco21", rng.choice(base.POOL["domain-name"][:2]), None)
     if rng.random() < 0.2:
         add("unreg", rng.choice(base.POOL["x-unreg"][:2]), rng.choice(palette))
+    RTYPES_OF[id(pop)] = rtypes
     return pop, nodes
 
 
@@ -356,6 +365,7 @@ def gen_sequence(rng, src, pop, nodes, ids):
 
 def gen_case(rng, shape=None):
     pop, nodes = gen_population(rng)
+    rtypes = RTYPES_OF.pop(id(pop), REL_TYPES)
     shape = shape or rng.choice(["single", "comp", "comp", "comp", "nested", "env", "env"])
     nmem = 1 if shape == "single" else rng.randint(1, 4)
     # partition with overlapping copies: every object goes to 1..2 members; a copy may carry other content
@@ -417,7 +427,7 @@ def gen_case(rng, shape=None):
                 ao.pop("moddt", None)
             else:
                 form = "id"
-        rt = rng.choice([None, None, None, "", rng.choice(REL_TYPES)])
+        rt = rng.choice([None, None, "", rng.choice(rtypes), rng.choice(rtypes)])
         so, to = rng.choice([(False, False), (False, False), (True, False), (False, True), (True, True)])
         r = {"op": "rels", "a": a, "rt": rt, "so": so, "to": to, "argform": form}
         if ao:
